@@ -76,8 +76,10 @@ def run_case(ctx, case):
                 ctx.count("discarded:base-update-fails")
                 return
         faults = []
+        seen_fp = set()
         for pl in q.plants:
-            if pl.file != q.cfg_name:
+            if pl.file != q.cfg_name and (pl.file, pl.raw) not in seen_fp:
+                seen_fp.add((pl.file, pl.raw))
                 faults.append(("pattern", pl))
         for fn in q.files:
             if fn != q.cfg_name:
@@ -95,8 +97,15 @@ def run_one(ctx, case, q, good_args, fault, expect_fail):
     if fault:
         kind, what = fault
         if kind == "pattern":
+            # the pattern is made non-matching: EVERY occurrence of it in that file is destroyed
             t = q.files[what.file]
-            files[what.file] = (t[:what.start] + "~" * (what.end - what.start) + t[what.end:]).encode("utf-8")
+            for pl in q.plants:
+                if pl.file == what.file and pl.raw == what.raw:
+                    t = t[:pl.start] + "~" * (pl.end - pl.start) + t[pl.end:]
+                    if sum(1 for x in q.plants if x.file == what.file and x.raw != what.raw) and \
+                            sum(1 for x in q.plants if x.file == what.file) > len({x.raw for x in q.plants if x.file == what.file}):
+                        ctx.count("faults_in_files_with_repeated_sibling_occurrences")
+            files[what.file] = t.encode("utf-8")
             pos = q.write_order.index(what.file)
         elif kind == "file-removed":
             del files[what]
